@@ -22,7 +22,7 @@ func (fx *Fx) entryVars() map[string]Val {
 func newFx(p *Prog, fn *ssa.Function, ct *Contract) *Fx {
 	fx := &Fx{P: p, Fn: fn, C: ct, Name: fnName(fn), Loops: map[*ssa.BasicBlock]*LoopInfo{},
 		ipdom: map[*ssa.Function]map[*ssa.BasicBlock]*ssa.BasicBlock{}, loopsOf: map[*ssa.Function]map[*ssa.BasicBlock]*LoopInfo{},
-		siteCnt: map[string]int{}, Havocked: map[string]bool{}, Trusted: map[string]bool{}, UsedSpec: map[string]bool{}, LemmasUsed: map[string]bool{}, KeyFacts: map[*Term]bool{}, autoAnns: map[*LoopInfo]*LoopAnn{}, AutoLoops: map[string]int{}, ConstTables: map[string]bool{},
+		siteCnt: map[string]int{}, Havocked: map[string]bool{}, Trusted: map[string]bool{}, UsedSpec: map[string]bool{}, LemmasUsed: map[string]bool{}, KeyFacts: map[*Term]bool{}, autoAnns: map[*LoopInfo]*LoopAnn{}, AutoLoops: map[string]int{}, Variants: map[string]string{}, ConstTables: map[string]bool{},
 		loopCtxs: map[*LoopInfo]*loopCtx{}}
 	if ct != nil {
 		fx.Sweep = ct.Sweep
@@ -101,6 +101,27 @@ func (p *Prog) verifyFunc(fn *ssa.Function, ct *Contract) (fx *Fx, err error) {
 			}
 		}
 	}
+	// typed pointers to arrays never overlap partially (no unsafe in /repo; go.mod predates slice-to-array-pointer
+	// conversions): two parameters of the same pointer-to-array type are equal or point to disjoint cells
+	for i, p1 := range fn.Params {
+		pt1, ok := p1.Type().Underlying().(*types.Pointer)
+		if !ok {
+			continue
+		}
+		at, ok := pt1.Elem().Underlying().(*types.Array)
+		if !ok {
+			continue
+		}
+		n := BVConstI(slots(at), 64)
+		for _, p2 := range fn.Params[i+1:] {
+			if !types.Identical(p1.Type(), p2.Type()) {
+				continue
+			}
+			a, b := fr.Vals[p1], fr.Vals[p2]
+			fx.assumeGlobal(Or(Not(Eq(a.L[0], b.L[0])), Eq(a.L[1], b.L[1]),
+				BVOp("bvsge", BVOp("bvsub", a.L[1], b.L[1]), n), BVOp("bvsge", BVOp("bvsub", b.L[1], a.L[1]), n)))
+		}
+	}
 	for _, fv := range fn.FreeVars {
 		v := paramVal("fv."+fv.Name(), fv.Type())
 		fr.Vals[fv] = v
@@ -110,6 +131,7 @@ func (p *Prog) verifyFunc(fn *ssa.Function, ct *Contract) (fx *Fx, err error) {
 	fx.entryVarsM = fx.frameVars(st)
 	env := &Env{fx: fx, st: st, old: fx.Entry, vars: fx.entryVarsM}
 	knownDistinct = map[[2]int]bool{}
+	selectMemo = map[[2]*Term]*Term{} // Select's simplification depends on knownDistinct
 	if ct != nil {
 		// a precondition that fixes a parameter leaf to a constant (len(V) = 16) is applied as a substitution,
 		// so that loops bounded by it have constant trip counts
@@ -214,7 +236,7 @@ func (p *Prog) verifyFunc(fn *ssa.Function, ct *Contract) (fx *Fx, err error) {
 			set[gs.Label] = true
 		}
 		for g, t := range bodyGhost {
-			if set[g] || t == fx.Entry.Ghost[g] {
+			if set[g] || t == fx.Entry.Ghost[g] || ct.Sweep || ct.NoFrame {
 				continue
 			}
 			if t.S.K == SArr && t.S.Idx == IntS {
